@@ -388,6 +388,8 @@ class GraphBasedModelConstructor:
                 continue
             #logger.debug("== Path found for %s isoform %s: %s" % (s, isoform_id, gene_info.all_isoforms_introns[isoform_id]))
             known_isoforms[tuple(intron_path)] = isoform_id
+            # several isoforms may share an intron chain (alternative ends, retained last intron): all of them are in the graph
+            self.known_isoforms_in_graph_ids[isoform_id] = tuple(intron_path)
         return known_isoforms
 
     def save_assigned_read(self, read_assignment, transcript_id):
